@@ -497,6 +497,55 @@ def r4(ctx):
     ctx.check("C03.R4", bool(ex), key(f_halt, "exit-with-status"), site(f_halt), "halt() does not exit with the status it was given", "sys.exit(exit_status)")
 
 
+def kill_worker_table(ctx, rid):
+    """kill_worker(pid, sig) when the signal cannot be delivered. ESRCH means the process is gone: if it is still in WORKERS (it
+    died between fork() and its registration, so the SIGCHLD handler found nothing to pop) this is the only place that ever
+    forgets it -- otherwise a dead entry counts as a live worker for ever and the master runs one short; if the SIGCHLD handler
+    popped it a moment ago, the missing key is not an error (a KeyError here reaches the main loop's last-resort clause: the
+    whole server stops). Any other failure of kill() is not swallowed. Evaluated from the clause an OSError of os.kill lands in,
+    per errno x {pid still tracked, pid already reaped}."""
+    repo = ctx.repo
+    from .c05 import _landing
+    from ..absint import Explorer, Inst
+    f = ctx.fn(repo.func(ARB + ".kill_worker"))
+    g = f.cfg
+    kc = calls_to(repo, f, "os.kill")
+    ctx.need(kc, rid + ": kill_worker does not call os.kill")
+    PIDP = f.params[1]
+    closes = [n for cc in method_calls(f, "close") if norm(cc.func.value).endswith(".tmp") for n in nodes_with(f, cc)]
+    for cls_q, err, tracked in (("ProcessLookupError", "ESRCH", True), ("ProcessLookupError", "ESRCH", False), ("PermissionError", "EPERM", True), ("OSError", "EINVAL", True)):
+        h = _landing(repo, f, kc[0], cls_q, follow_reraise=False)
+        label = "%s|%s" % (err, "tracked" if tracked else "reaped")
+        if h is None:
+            ctx.check(rid, err != "ESRCH", key(f, "kill-worker|" + label), site(f, kc[0]), "os.kill failing with ESRCH (the worker is already gone) propagates out of kill_worker into the main loop", "ESRCH handled")
+            continue
+        hn = [n for n in g.nodes if n.kind == "handler" and n.ast is h]
+        ctx.need(hn, rid + ": handler node of kill_worker not found")
+        hv = h.name
+
+        def atom_of(e, hv=hv):
+            if hv and norm(e) in ("%s.errno" % hv, "%s.args[0]" % hv):
+                return "ERRNO"
+            return None
+        workers = {4242: Inst("gunicorn.workers.base.Worker")} if tracked else {}
+        outs = Explorer(f, atom_of=atom_of).run(hn[0], {"ERRNO": "@errno." + err, "self.WORKERS": workers, PIDP: 4242}, watch={n.id: "close" for n in closes})
+        outs = [o for o in outs if o.kind in ("return", "raise")]
+        kinds = set(o.kind for o in outs)
+        if err == "ESRCH":
+            ctx.check(rid, kinds == {"return"}, key(f, "kill-worker|" + label), site(f, kc[0]),
+                      "kill_worker on a pid that no longer exists (ESRCH) and is %s can raise%s: the exception reaches the main loop's last-resort clause, which stops the whole server" % (
+                          "still tracked" if tracked else "no longer in WORKERS (the SIGCHLD handler reaped it a moment ago)", (lambda ds: (" (%s)" % ", ".join(ds)) if ds else "")(sorted(set(str(o.detail) for o in outs if o.kind == "raise" and o.detail)))), "returns normally")
+            if tracked:
+                left = [o for o in outs if o.kind == "return" and not (isinstance(o.env.get("self.WORKERS"), dict) and 4242 not in o.env["self.WORKERS"])]
+                ctx.check(rid, not left, key(f, "kill-worker-forgets|" + label), site(f, kc[0]),
+                          "kill_worker finds that the worker's process is gone (ESRCH) but leaves it in WORKERS: nothing else removes an entry whose child was reaped before it was registered, "
+                          "so it is counted as a live worker for ever and the master runs one worker short", "entry removed on ESRCH")
+                noclose = [o for o in outs if o.kind == "return" and "close" not in o.events]
+                ctx.check(rid, bool(closes) and not noclose, key(f, "kill-worker-closes-tmp|" + label), site(f, kc[0]), "the heartbeat file of a worker forgotten on ESRCH is not closed", "tmp.close()")
+        else:
+            ctx.check(rid, kinds == {"raise"}, key(f, "kill-worker|" + label), site(f, kc[0]), "os.kill failing with %s is swallowed by kill_worker: a worker that cannot be signalled is taken for stopped" % err, "propagates")
+
+
 def r5(ctx):
     repo = ctx.repo
     cls = repo.cls(ARB)
@@ -506,7 +555,8 @@ def r5(ctx):
         for c in method_calls(f, "pop"):
             if tail(c.func.value) == "WORKERS":
                 pops.append((f, c))
-    ctx.floor("C03.R5", "WORKERS.pop sites", len(pops), 2)
+    ctx.floor("C03.R5", "WORKERS.pop sites", len(pops), 1)
+    kill_worker_table(ctx, "C03.R5")
     for f, c in pops:
         ctx.fn(f)
         g = f.cfg
